@@ -23,7 +23,7 @@ def signature(f):
 
 
 def run(ctx):
-    n = 600 if ctx.quick else 12000
+    n = 600 if ctx.quick else 6000
     ctx.tlc("MC_Syntax", "MC_Syntax_sim", replay="syntax", simulate={"num": n, "depth": 500, "procs": 12},
             label="MC_Syntax_sim", timeout=7200)
     # name collisions across scopes and files (the arrangements of C15): identifiers that collide across scopes (a definition, a member and a module with one scoped name): the same AST in every file order
